@@ -2,10 +2,9 @@
    multi-wallet layer while a wallet is being restored and the node's chain is ANY other chain
    than the one the handler followed when the process stopped.
 
-   The invariant is C07's [xinv p g U w keys c n st] (Ledger/ImportProofs2.v): the handler follows
-   the chain c, the node is on n, the store holds exactly the restored wallet's history of c up to
-   the rescan cursor (or the remains of a batch that read a chain the handler had not been told
-   about).  Results:
+   The invariant is C07's [xinv p g U w keys c st] (Ledger/ImportProofs2.v): the handler follows
+   the chain c and the store holds exactly the restored wallet's history of c up to the rescan
+   cursor.  Results:
      start_sync_xinv      Remove.v's Start (no fast-forward) from any such state, any c and n:
                           succeeds, the handler then follows the node's chain
      start_sync_ff_xinv   the same for Start with the fast-forward, any margin ff
@@ -130,16 +129,16 @@ Notation xinv := (xinv p g U w keys).
 Notation ninv := (ninv g U).
 
 (* crash + reopen keeps the invariant (it speaks of persistent fields only, and of [x_dead = []]) *)
-Lemma xinv_xreopen : forall c n st, xinv c n st -> xinv c n (xreopen st).
+Lemma xinv_xreopen : forall c st, xinv c st -> xinv c (xreopen st).
 Proof.
-  intros c n st [H1 H2 H3 H4 H5 H6 H7 H8]. constructor; try assumption; reflexivity.
+  intros c st [H1 H2 H3 H4 H5 H6 H7 H8]. constructor; try assumption; reflexivity.
 Qed.
 
 (* the tip of a state that follows the chain c *)
-Lemma xinv_tip : forall c n st, xinv c n st ->
+Lemma xinv_tip : forall c st, xinv c st ->
   fst (tip (x_w st)) = chain_height c /\ snd (tip (x_w st)) = b_id (last c g).
 Proof.
-  intros c n st Hinv. pose proof (xi_wf _ _ _ _ _ _ _ _ Hinv) as Hwf. pose proof (xi_synced _ _ _ _ _ _ _ _ Hinv) as Hsy.
+  intros c st Hinv. pose proof (xi_wf _ _ _ _ _ _ _ Hinv) as Hwf. pose proof (xi_synced _ _ _ _ _ _ _ Hinv) as Hsy.
   destruct (exists_last (wf_nonempty _ Hwf)) as [cpre [z Hc]].
   rewrite (xw_eta st), Hsy, Hc, tip_synced_of. cbn [fst snd]. rewrite last_last.
   destruct (wf_linked _ Hwf) as [pv Hl]. rewrite Hc in Hl.
@@ -148,16 +147,16 @@ Qed.
 
 (* catch-up when the handler follows a prefix of the node's chain *)
 Lemma catchup_prefix : forall n n2 n1 st fuel,
-  ninv n -> n = n1 ++ n2 -> n1 <> [] -> xinv n1 n st -> (length n2 <= fuel)%nat ->
-  exists st', catchup repaired p n st fuel = XOk st' /\ xinv n n st'.
+  ninv n -> n = n1 ++ n2 -> n1 <> [] -> xinv n1 st -> (length n2 <= fuel)%nat ->
+  exists st', catchup repaired p n st fuel = XOk st' /\ xinv n st'.
 Proof.
   intros n n2. induction n2 as [|b n2 IH]; intros n1 st fuel Hninv Hn Hne Hinv Hfuel.
   - rewrite app_nil_r in Hn. subst n1. exists st. split; [|assumption].
     destruct fuel as [|f]; [reflexivity|]. cbn [catchup].
-    destruct (xinv_tip _ _ _ Hinv) as [Ht _]. rewrite Ht. unfold chain_height.
+    destruct (xinv_tip _ _ Hinv) as [Ht _]. rewrite Ht. unfold chain_height.
     rewrite node_at_beyond; [reflexivity|apply Hninv|lia].
   - destruct fuel as [|f]; [cbn [length] in Hfuel; lia|]. cbn [catchup].
-    destruct (xinv_tip _ _ _ Hinv) as [Ht _]. rewrite Ht. unfold chain_height.
+    destruct (xinv_tip _ _ Hinv) as [Ht _]. rewrite Ht. unfold chain_height.
     assert (Hlen : (0 < length n1)%nat) by (destruct n1; [contradiction|cbn; lia]).
     replace (Z.of_nat (length n1) - 1 + 1) with (Z.of_nat (length n1)) by lia.
     rewrite (node_at_next n n1 b n2 (proj1 Hninv) Hn).
@@ -172,13 +171,13 @@ Qed.
 (* Remove.v's Start (catch-up by height, then the tip check of the repaired code) from ANY chain c the
    handler followed, on ANY chain n of the node (but a bare genesis) *)
 Theorem start_sync_xinv : forall c n st,
-  ninv n -> (2 <= length n)%nat -> xinv c n st ->
-  exists st', start_sync repaired p n st = XOk st' /\ xinv n n st'.
+  ninv n -> (2 <= length n)%nat -> xinv c st ->
+  exists st', start_sync repaired p n st = XOk st' /\ xinv n st'.
 Proof.
   intros c n st Hninv Hlen Hinv. pose proof Hninv as [Hwfn [Hgn HnU]].
-  destruct (xinv_tip _ _ _ Hinv) as [Ht Htid].
+  destruct (xinv_tip _ _ Hinv) as [Ht Htid].
   assert (Hc0 : 0 <= chain_height c).
-  { pose proof (wf_nonempty _ (xi_wf _ _ _ _ _ _ _ _ Hinv)) as Hne. unfold chain_height. destruct c; [contradiction|cbn [length]; lia]. }
+  { pose proof (wf_nonempty _ (xi_wf _ _ _ _ _ _ _ Hinv)) as Hne. unfold chain_height. destruct c; [contradiction|cbn [length]; lia]. }
   unfold start_sync. cbv zeta. destruct (length n) as [|f] eqn:Hf; [lia|]. cbn [catchup]. rewrite <- Hf.
   destruct (node_at n (fst (tip (x_w st)) + 1)) as [b|] eqn:Hat.
   - (* the node is higher than the stored tip: catch up by height *)
@@ -219,12 +218,12 @@ Qed.
 (* the fast-forward on top of a prefix of the node's chain, no wallet ready: every record written is
    what processing the block would have committed *)
 Lemma ff_records_prefix : forall n upto fuel n1 n2 st,
-  ninv n -> n = n1 ++ n2 -> n1 <> [] -> xinv n1 n st -> has_ready st = false ->
-  exists m1 m2, n = m1 ++ m2 /\ m1 <> [] /\ xinv m1 n (ff_records n st upto fuel).
+  ninv n -> n = n1 ++ n2 -> n1 <> [] -> xinv n1 st -> has_ready st = false ->
+  exists m1 m2, n = m1 ++ m2 /\ m1 <> [] /\ xinv m1 (ff_records n st upto fuel).
 Proof.
   intros n upto fuel. induction fuel as [|f IH]; intros n1 n2 st Hninv Hn Hne Hinv Hnr.
   - exists n1, n2. split; [assumption|split; assumption].
-  - cbn [ff_records]. destruct (xinv_tip _ _ _ Hinv) as [Ht _]. rewrite Ht. unfold chain_height.
+  - cbn [ff_records]. destruct (xinv_tip _ _ Hinv) as [Ht _]. rewrite Ht. unfold chain_height.
     assert (Hlen : (0 < length n1)%nat) by (destruct n1; [contradiction|cbn; lia]).
     replace (Z.of_nat (length n1) - 1 + 1) with (Z.of_nat (length n1)) by lia.
     destruct (Z.of_nat (length n1) <? upto); [|exists n1, n2; split; [assumption|split; assumption]].
@@ -246,12 +245,12 @@ Proof.
 Qed.
 
 (* the stored tip is the node's block of that height: the handler follows a prefix of the node's chain *)
-Lemma tip_on_node_prefix : forall c n st, ninv n -> xinv c n st -> tip_on_node n st = true ->
+Lemma tip_on_node_prefix : forall c n st, ninv n -> xinv c st -> tip_on_node n st = true ->
   exists n2, n = c ++ n2.
 Proof.
   intros c n st Hninv Hinv Hon. pose proof Hninv as [Hwfn [Hgn HnU]].
-  pose proof (xi_wf _ _ _ _ _ _ _ _ Hinv) as Hwfc. pose proof (xi_U _ _ _ _ _ _ _ _ Hinv) as HcU.
-  destruct (xinv_tip _ _ _ Hinv) as [Ht Htid].
+  pose proof (xi_wf _ _ _ _ _ _ _ Hinv) as Hwfc. pose proof (xi_U _ _ _ _ _ _ _ Hinv) as HcU.
+  destruct (xinv_tip _ _ Hinv) as [Ht Htid].
   unfold tip_on_node in Hon. destruct (node_at n (fst (tip (x_w st)))) as [b|] eqn:Hat; [|discriminate].
   apply N.eqb_eq in Hon. rewrite Htid in Hon.
   destruct (exists_last (wf_nonempty _ Hwfc)) as [cpre [z Hc]].
@@ -271,8 +270,8 @@ Qed.
    state of the restore (any cursor, ready or not): Start succeeds and the handler then follows the
    node's chain with a store that holds exactly the wallet's history of that chain up to the cursor *)
 Theorem start_sync_ff_xinv : forall ff c n st,
-  0 <= ff -> ninv n -> (2 <= length n)%nat -> xinv c n st ->
-  exists st', start_sync_ff repaired p ff n st = XOk st' /\ xinv n n st'.
+  0 <= ff -> ninv n -> (2 <= length n)%nat -> xinv c st ->
+  exists st', start_sync_ff repaired p ff n st = XOk st' /\ xinv n st'.
 Proof.
   intros ff c n st Hff0 Hninv Hlen Hinv. pose proof Hninv as [Hwfn [Hgn HnU]].
   unfold start_sync_ff. cbv zeta.
@@ -286,12 +285,12 @@ Proof.
   - (* the stored tip is still on the node's chain: fast-forward *)
     destruct (tip_on_node_prefix c n st Hninv Hinv Hon) as [n2 Hn].
     destruct (ff_records_prefix n (Z.of_nat (length n) - 1 - ff) (length n) c n2 st Hninv Hn
-                (wf_nonempty _ (xi_wf _ _ _ _ _ _ _ _ Hinv)) Hinv Hnr) as [m1 [m2 [_ [_ Hinv1]]]].
+                (wf_nonempty _ (xi_wf _ _ _ _ _ _ _ Hinv)) Hinv Hnr) as [m1 [m2 [_ [_ Hinv1]]]].
     apply (start_sync_xinv m1 n _ Hninv Hlen Hinv1).
   - (* it was replaced: the next block goes through the reorganisation path, then the fast-forward *)
-    destruct (xinv_tip _ _ _ Hinv) as [Ht _].
+    destruct (xinv_tip _ _ Hinv) as [Ht _].
     assert (Hc0 : 0 <= chain_height c).
-    { pose proof (wf_nonempty _ (xi_wf _ _ _ _ _ _ _ _ Hinv)) as Hne. unfold chain_height. destruct c; [contradiction|cbn [length]; lia]. }
+    { pose proof (wf_nonempty _ (xi_wf _ _ _ _ _ _ _ Hinv)) as Hne. unfold chain_height. destruct c; [contradiction|cbn [length]; lia]. }
     destruct (node_at_within n (fst (tip (x_w st)) + 1)) as [b Hat]; [lia|assumption|].
     rewrite Hat.
     destruct (node_at_split n _ b Hwfn Hat) as [n1 [n2 [Hn Hh]]].
@@ -310,8 +309,8 @@ Qed.
 (* ... and the resumed rescan: m further batches make the wallet ready as soon as cursor + m * B exceeds
    the height of the node's chain; its ledger and its report are those of the node's chain *)
 Theorem ff_restart_live : forall ff B m c n st,
-  0 <= ff -> ninv n -> (2 <= length n)%nat -> 0 < B -> xinv c n st ->
-  exists st', start_sync_ff repaired p ff n (xreopen st) = XOk st' /\ xinv n n st' /\
+  0 <= ff -> ninv n -> (2 <= length n)%nat -> 0 < B -> xinv c st ->
+  exists st', start_sync_ff repaired p ff n (xreopen st) = XOk st' /\ xinv n st' /\
     ((forall k, status_of st' w = Some (WImporting k) -> chain_height n < k + Z.of_nat m * B) ->
      let st'' := batches repaired p B n st' w m in
      status_of st'' w = Some WReady /\
@@ -319,11 +318,11 @@ Theorem ff_restart_live : forall ff B m c n st,
      xreport st'' w = spec_report p (kown w keys) n w).
 Proof.
   intros ff B m c n st Hff0 Hninv Hlen HB Hinv.
-  destruct (start_sync_ff_xinv ff c n (xreopen st) Hff0 Hninv Hlen (xinv_xreopen _ _ _ Hinv)) as [st' [Hs Hinv']].
+  destruct (start_sync_ff_xinv ff c n (xreopen st) Hff0 Hninv Hlen (xinv_xreopen _ _ Hinv)) as [st' [Hs Hinv']].
   exists st'. split; [assumption|split; [assumption|]]. intros Hm st''.
   pose proof (batches_inv p g U U_ids w keys B n m n st' Hninv HB Hinv') as Hinv''. fold st'' in Hinv''.
   assert (Hr : status_of st'' w = Some WReady).
-  { destruct (xi_state _ _ _ _ _ _ _ _ Hinv') as [top [[Hs'|[Hs' _]] _]].
+  { destruct (xi_state _ _ _ _ _ _ _ Hinv') as [top [[Hs'|[Hs' _]] _]].
     - apply (batches_live p g U U_ids w keys B n m st' top Hninv HB Hinv' Hs'). apply Hm. assumption.
     - unfold st''. rewrite (batches_ready p w); assumption. }
   split; [assumption|].
@@ -340,11 +339,11 @@ End FF.
 Theorem ff_restart_any_chain : forall p g U w keys ff c n st,
   (forall b1 b2, In b1 U -> In b2 U -> b_id b1 = b_id b2 -> b1 = b2) ->
   (forall sh v, lookupN keys sh = Some v -> v = w) ->
-  0 <= ff -> ninv g U n -> (2 <= length n)%nat -> xinv p g U w keys c n st ->
-  exists st', start_sync_ff repaired p ff n (xreopen st) = XOk st' /\ xinv p g U w keys n n st'.
+  0 <= ff -> ninv g U n -> (2 <= length n)%nat -> xinv p g U w keys c st ->
+  exists st', start_sync_ff repaired p ff n (xreopen st) = XOk st' /\ xinv p g U w keys n st'.
 Proof.
   intros p g U w keys ff c n st Uids Kw Hff Hn Hlen Hinv.
-  exact (start_sync_ff_xinv p g U Uids w keys Kw ff c n (xreopen st) Hff Hn Hlen (xinv_xreopen p g U w keys c n st Hinv)).
+  exact (start_sync_ff_xinv p g U Uids w keys Kw ff c n (xreopen st) Hff Hn Hlen (xinv_xreopen p g U w keys c st Hinv)).
 Qed.
 
 
@@ -377,5 +376,5 @@ Proof.
   destruct (ff_restart_live p g U Uids w _ (keys_of_w w (sh :: shs)) ff B m c _ _ Hff Hninv Hlen HB Hinv)
     as [st' [Hst [Hinv' Hlive]]].
   exists st'. split; [assumption|]. split; [|exact Hlive].
-  apply (xinv_tip p g U w _ _ _ _ Hinv').
+  apply (xinv_tip p g U w _ _ _ Hinv').
 Qed.
